@@ -29,7 +29,7 @@ func init() {
 			"R3": "registration overwrites unconditionally under the write lock; ALL → catch-all index",
 			"R4": "FindCommand base-application fallback",
 		},
-		MinInstances: map[string]int{"R1": 32, "R2": 2, "R3": 3, "R4": 1},
+		MinInstances: map[string]int{"R1": 32, "R2": 2, "R3": 2, "R4": 1},
 		Assumptions:  []string{"Go map semantics: a comma-ok lookup hits iff the key was stored; repeated lookups of one key on one path agree (the read lock is held throughout)"},
 	})
 }
